@@ -216,6 +216,7 @@ func init() {
 			k.PInfo = 25
 			k.PCallback = 10
 			k.PNilOptArg = 12
+			k.PNamedSlice = 18
 			k.PSide = 5
 			k.MaxOps = 20
 			return GenCase(t, scale(k, thorough))
